@@ -10,6 +10,8 @@ def main():
     ap.add_argument("--replay", default=None)
     a = ap.parse_args()
     prop = a.prop.upper()
+    if prop == "C15":
+        os.environ.setdefault("NUMBA_NUM_THREADS", "64")   # must be set before numba is imported
     mod = importlib.import_module("vlib.checks.%s" % prop.lower())
     run = common.Run(prop, rule=getattr(mod, "RULE", ""))
     ok, where = build.assert_overlay_loaded()
